@@ -315,7 +315,7 @@ PROPS["C14"] = {
 PROPS["C18"] = {
     "lean_modules": ["StyluaModel.Props.C18"],
     "theorem_prefix": "C18_",
-    "required_theorems": ["C18_json_partial", "C18_json", "C18_none_iff", "C18_ranges"],
+    "required_theorems": ["C18_json_partial", "C18_json", "C18_json_as_indexed", "C18_none_iff", "C18_ranges"],
     "py": [cli.c18],
     "needs_cli": True,
     "level": "proof",
